@@ -40,6 +40,8 @@ def main():
     demo = next((seed / n for n in ("demo.py", "demo_test.py", "test_demo.py") if (seed / n).exists()), None)
     out = {"seed": str(seed), "property": prop}
 
+    gen_dir = VERIF / "lean" / "Koreo" / "Gen"
+    gen_before = {f.name: f.read_text() for f in gen_dir.glob("*.lean")}
     clean = tempfile.mkdtemp(prefix="seedclean_")
     os.rmdir(clean)
     sh(["git", "-C", "/repo", "worktree", "add", "-f", clean, "HEAD"])
@@ -91,10 +93,11 @@ def main():
         else:
             sh(["git", "-C", "/repo", "worktree", "remove", "--force", tree])
         sh(["git", "-C", "/repo", "worktree", "remove", "--force", clean])
-        # put the generated tables back to /repo's
-        env = {k: v for k, v in os.environ.items() if k != "VERIF_REPO"}
-        subprocess.run([PY, str(VERIF / "harness" / "extract.py")], cwd=str(VERIF / "harness"), env=env,
-                       capture_output=True, text=True)
+        # put the generated tables back as they were (only files whose text differs are rewritten)
+        for f in gen_before:
+            cur = (gen_dir / f).read_text() if (gen_dir / f).exists() else None
+            if cur != gen_before[f]:
+                (gen_dir / f).write_text(gen_before[f])
     print(json.dumps(out, indent=1))
     return 0
 
